@@ -169,6 +169,14 @@ func initSymIntrinsics() {
 			m.mapOrderNondet = m.asTerm(a[0]).C != 0
 			return nil
 		},
+		"Bounded": func(m *Machine, c *frame, fn *ssa.Function, a []value) value {
+			oldA, oldL := m.opts.AllocBudget, m.opts.LoopBudget
+			m.opts.AllocBudget = int64(intArg(m, a[0]))
+			m.opts.LoopBudget = intArg(m, a[1])
+			m.call(c, 0, a[2], nil)
+			m.opts.AllocBudget, m.opts.LoopBudget = oldA, oldL
+			return nil
+		},
 		// Recovered(f) runs f and reports whether it panicked (recovering the panic)
 		"Panics": func(m *Machine, c *frame, fn *ssa.Function, a []value) (res value) {
 			res = tFalse
